@@ -20,7 +20,7 @@ def sh(cmd, cwd=None, env=None, timeout=3600):
 
 
 def build(wt):
-    rc, out = sh(f'{PY} setup.py build_ext --inplace -j8', cwd=wt)
+    rc, out = sh(f'{PY} setup.py build_ext --inplace --force -j8', cwd=wt)
     shutil.rmtree(Path(wt) / 'build', ignore_errors=True)
     return rc, out[-1500:]
 
